@@ -22,6 +22,8 @@ package packagedeploy
 
 //@ func package-operator.run/internal/packages/internal/packagedeploy.(*DeploymentReconciler).sliceGarbageCollection
 //@   sink Client.Delete#1 requires [C14] !(name(arg1) in referencedSlices)
+// the slices considered for deletion are those of this deployment's own namespace (the owner label is only a name)
+//@   at Client.List#1 assert [C14] exists k int :: 0 <= k && k < len(varargs) && dyntype(varargs[k]) == typetag("sigs.k8s.io/controller-runtime/pkg/client.InNamespace") && varargs[k] == boxnamed("sigs.k8s.io/controller-runtime/pkg/client.InNamespace", ns(clientObj(deploy)))
 
 //@ props C16
 //@ func package-operator.run/internal/packages/internal/packagedeploy.validateConstraints
@@ -31,3 +33,10 @@ package packagedeploy
 //@ func package-operator.run/internal/packages/internal/packagedeploy.(*PackageDeployer).Deploy
 //@   requires [C16] !constraintsFailed()
 //@   sink deploymentReconciler.Reconcile#1 requires [C16] !constraintsFailed()
+
+//@ props C16
+// the ObjectDeployment is created only after a NotFound read, and every update request - also a retried one after a
+// conflict, which reloads the object - carries the freshly rendered template
+//@ func package-operator.run/internal/packages/internal/packagedeploy.(*DeploymentReconciler).Reconcile
+//@   sink Client.Create#1 requires [C16] lastGet() == 4
+//@   sink Reconcile$1:Client.Update#1 requires [C16] tplVal(arg1) == templateSpec
